@@ -260,9 +260,12 @@ impl Prop for C01 {
     match t {
       "sweep" => {
         let (lo, hi) = shard_range(NDAYS, shard, nshards);
+        let mut rev = Reverse::new(50);
         for i in lo..hi {
           run_case(env, out, "roundtrip", &Case::ints(&[i as i64]), &ev);
+          rev.note("roundtrip", &Case::ints(&[i as i64]));
         }
+        rev.run(env, out, &ev);
         let (ylo, yhi) = shard_range(9999, shard, nshards);
         for y in (ylo as i64 + 1)..=(yhi as i64) {
           run_case(env, out, "year", &Case::ints(&[y]), &ev);
